@@ -110,6 +110,8 @@ impl<'a> ZipFile<'a> {
 //@use zipfile_central_header_start
 //@use zipfile_unix_mode
 //@use zipfile_name
+//@use zipfile_name_raw
+//@use zipfile_comment
 //@use zipfile_is_dir
 //@use zipfile_is_file
 }
